@@ -10,6 +10,7 @@ from hxv.runner import Shard
 
 PROP = "C03"
 CASE_TIMEOUT = 2.0
+FUZZ = {"shards": ["gen-0", "gen-long-0"], "procs_per_shard": 2, "runs": 150000, "seconds": 420}
 RULE = (
     "case = (timeframe unit x multiplier, stream of integer-grid OHLCV rows with generated timestamp "
     "pattern regular/jitter/gappy/burst and on/off-boundary start, preload count, append chunk sizes, "
